@@ -17,6 +17,15 @@ CLAIMED = {
  "C04": dict(tech=S, ref="4/C04",
    text="Model checking, stateless shape: for every cell of depths 0..10 (quick) / 0..12 (thorough) and for all border/corner class cells (plus their neighbours) of depths up to 29, neighbours(h) (with and without centre), neighbour(h, dir) for the 9 directions and the symmetry of the relation are compared with the integer lattice adjacency model (cells sharing a canonical vertex; label = which vertices are shared). Exact oracle; out-of-range hashes must panic at every depth.",
    note="Trusted: lattice adjacency model R2 (exact seam identification), self-checked for symmetry and the 8/7/6 neighbour counts at depths 0..3."),
+ "C07": dict(tech=E, ref="4/C07",
+   text="Model checking, explicit-state shape: states are (depth_max, entry list) values; the initial frontier is the universe of ALL valid MOCs (canonical and unpacked strata, every depth_max) of bounded tree shapes (complete depth-1 trees; depth-2/3/4 trees subdividing the first or last descendant chain; leaf base cells 0, 1/5/11) plus degenerate shapes at depth_max 8/16/29; transitions apply the real not/and/or/xor: layer 1 = every state under not and ALL ordered pairs under and/or/xor, further layers feed new result states back (breadth-first, visited set) until the fix-point or the stated layer bound. Every transition is compared with a range-based set model (map equality, depth_max = max) and, for canonical operands, with the independently computed canonical packed form.",
+   note="Trusted: range model R4 in bm.rs with its own decoding of raw values. MOC tree shapes outside the universes are outside the bound."),
+ "C08": dict(tech=E, ref="4/C08",
+   text="Model checking, explicit-state shape: same search as C07 over universes with all mixes of full/partial flags (complete depth-1 trees over base cells 0 and 11, depth-2 chain trees, degenerate deep shapes): all ordered pairs x {and, or, xor}, not on every state, closure layers; every transition compared with the three-valued pointwise tables (min, max, documented xor table, not swaps absent/full).",
+   note="Trusted: three-valued range model R4. Shapes outside the universes are outside the bound."),
+ "C15": dict(tech=E, ref="4/C15",
+   text="Model checking over push histories: ALL push sequences of length <= 5 over a 13-cell (quick) / 20-cell (thorough) alphabet of aligned runs, parent-boundary crossings and last cells x 7 buffer capacities (1..100, forcing many intermediate merges) x both flags; consecutive runs of every length 1..70/300 from aligned and unaligned starts in 6 push orders x 12 capacities; all subsets of depth-0 cells and of 11 depth-29 cells; and ALL valid entry sequences of a depth-2 universe (with partial flags and unpacked shapes) through to_bmoc_packing / to_lower_depth_bmoc(_packing) for every lower depth. Oracle: set model of the pushed cells / three-valued range model.",
+   note="Trusted: range model R4. Longer histories, other cells and capacities are outside the bound (the default capacity of 10^7 is represented by capacity 100 and 1000 > history length)."),
  "C17": dict(tech=S, ref="4/C17",
    text="Model checking, stateless shape: all nodes of the 2^-4 / 2^-7 plane lattice (+ border classes of 6 depths) are used (a) as sphere positions with 5x5 ulp nudges and 7 longitude turns for proj (range, sign, Calabretta-Roukema reference), unproj(proj) and base_cell_from_proj_coo (depth-0 containment), (b) as plane points (x and x-8, 3x3 ulp nudges) for proj(unproj); out-of-domain latitudes and ordinates must panic.",
    note="Trusted: R1 reference formulae; any image of a seam point or of a pole is accepted; round trips are judged by |dlat|, |dlon|cos(lat) and angular distance."),
